@@ -40,6 +40,7 @@ type E2Spec struct {
 	BadIndex   bool   `json:"bad_index"`  // a payload with validator index >= N
 	Stale      bool   `json:"stale"`      // stale timeouts
 	Skip       bool   `json:"skip"`       // ledger jumps two heights (sync), then Reset
+	LedgerFirst bool  `json:"ledger_first"` // the ledger advances by one block obtained elsewhere; the application calls Reset later (an event), consensus traffic of the old height may still arrive in between
 	Skip1      bool   `json:"skip1"`      // ledger advances one height by sync (block obtained elsewhere), then Reset
 	NoTimeout  bool   `json:"no_timeout"` // timer events excluded
 	TxB        []H    `json:"tx_b"`       // transactions of proposal B (default [102 103])
@@ -396,6 +397,9 @@ func (w *World) e2Enabled() []Event {
 	}
 	if sp.Skip && !x.pendingReset && w.skips < 1 {
 		evs = append(evs, Event{K: "skip", N: x.id})
+	}
+	if sp.LedgerFirst && !x.pendingReset && w.skips < 1 {
+		evs = append(evs, Event{K: "skip", N: x.id, A: 2})
 	}
 	if sp.Skip1 && !x.pendingReset && w.skips < 1 {
 		evs = append(evs, Event{K: "skip", N: x.id, A: 1})
